@@ -16,7 +16,9 @@ Vals == {MinI, -7, -1, 0, 2, 7, 31, 65536, MaxI}
 FoldOps == ArithOps
 \* exponents are kept <= 31: the value is still well defined beyond, but evaluating MaxI ** MaxI is only a way to waste compile time
 Pairs(op) == {<<x, y>> \in Vals \X Vals : ArithDef(op, x, y) /\ (op # "**" \/ y <= 31)}
-Sites == {"intdecl", "operand", "literal", "cond", "callarg", "untyped", "intchain"}
+Sites == {"intdecl", "operand", "literal", "cond", "callarg", "untyped", "intchain", "callbody", "calltwice", "callliteral"}
+FB(op) == SFunc("f", <<[ty |-> "Signal", n |-> "s"], [ty |-> "int", n |-> "n"], [ty |-> "int", n |-> "m"]>>, <<>>, Bin("+", Ref("s"), Bin(op, Ref("n"), Ref("m"))))
+FL(op) == SFunc("g", <<[ty |-> "int", n |-> "n"], [ty |-> "int", n |-> "m"]>>, <<>>, Lit(TName("signal-X"), Bin(op, Ref("n"), Ref("m"))))
 
 \* folded program for (site, op, x, y)
 Prog(site, op, x, y) ==
@@ -26,6 +28,10 @@ Prog(site, op, x, y) ==
     [] site = "cond" -> <<InA, SLet("Signal", "r", CondE(Bin("<=", A, Bin(op, Num(x), Num(y))), Num(1)))>>
     [] site = "callarg" -> <<InA, SFunc("f", <<[ty |-> "Signal", n |-> "s"], [ty |-> "int", n |-> "n"]>>, <<>>, Bin("+", Ref("s"), Ref("n"))),
                              SLet("Signal", "r", CallE("f", <<A, Bin(op, Num(x), Num(y))>>))>>
+    [] site = "callbody" -> <<InA, FB(op), SLet("Signal", "r", CallE("f", <<A, Num(x), Num(y)>>))>>
+    \* an earlier call of the same function with other constants (2 op 1 is defined for every operator) must not influence this one
+    [] site = "calltwice" -> <<InA, FB(op), SLet("Signal", "q", CallE("f", <<A, Num(2), Num(1)>>)), SLet("Signal", "r", CallE("f", <<A, Num(x), Num(y)>>))>>
+    [] site = "callliteral" -> <<InA, FL(op), SLet("Signal", "p", CallE("g", <<Num(2), Num(1)>>)), SLet("Signal", "q", CallE("g", <<Num(x), Num(y)>>)), SLet("Signal", "r", Bin("+", A, Ref("q")))>>
     [] site = "untyped" -> <<InA, SLet("Signal", "x", Num(x)), SLet("Signal", "y", Num(y)), SLet("Signal", "r", Bin("+", Bin(op, Ref("x"), Ref("y")), A))>>
     [] site = "intchain" -> <<InA, SInt("i", Num(x)), SInt("j", Num(y)), SInt("k", Bin(op, Ref("i"), Ref("j"))), SInt("m", Bin("+", Ref("k"), Num(0))),
                               SLet("Signal", "r", Bin("+", A, Ref("m")))>>
@@ -34,6 +40,7 @@ InK == SIn("kx", "signal-K", 0)
 Twin(site, op, x, y) ==
   CASE site = "cond" -> <<InA, InK, SLet("Signal", "r", CondE(Bin("<=", A, Bin(op, Ref("kx"), Num(y))), Num(1)))>>
     [] site = "literal" -> <<InA, InK, SLet("Signal", "q", Proj(Bin(op, Ref("kx"), Num(y)), TName("signal-X"))), SLet("Signal", "r", Bin("+", A, Ref("q")))>>
+    [] site = "callliteral" -> <<InA, InK, SLet("Signal", "q", Proj(Bin(op, Ref("kx"), Num(y)), TName("signal-X"))), SLet("Signal", "r", Bin("+", A, Ref("q")))>>
     [] OTHER -> <<InA, InK, SLet("Signal", "r", Bin("+", A, Bin(op, Ref("kx"), Num(y))))>>
 P(site, op, x, y) == LET s == Prog(site, op, x, y)  t == Twin(site, op, x, y) IN
    [grp |-> site, op |-> op, x |-> x, y |-> y, stmts |-> s, src |-> Render(s), stmts2 |-> t, src2 |-> Render(t), pin2 |-> [kx |-> x]]
